@@ -39,7 +39,7 @@
 #define NCLI 3
 #define SRV_PORT 45683
 #define CLI_PORT 40000
-static const char *res_name[NRES] = {"a", "bb", "dyn/c", "a0", "sensors/temp/1", "a b"};
+static const char *res_name[NRES] = {"a", "bb", "dyn/c", "a0", "sensors/temp/1", "p.q"};
 static const char *fnames[6] = {"dyn", "obs", "cnt", "dyn.tmp", "obs.tmp", "cnt.tmp"};
 
 /* ---------------------------------------------------------------- wrapped stdio */
